@@ -80,8 +80,9 @@ MANIFEST = dict(
                "real MX and by a direct solution/rank oracle on generated models with a constructed unique solution.",
     level_note="Trusted: Lean kernel + standard axioms; the harness; CasADi's rewriting and is_zero are observed, not modelled "
                "(theorems hold for every value-preserving engine). Completeness of a later alias pass under iterative_simplification "
-               "(non-empty alias relation), vector expansion, the SX round trip and the affine collapse are covered by the "
-               "correspondence / direct oracle only.",
+               "(non-empty alias relation), vector expansion and the SX round trip are covered by the correspondence / direct oracle "
+               "only; the affine collapse is modelled row by row (symbolic derivative for CasADi's Jacobian) and proved exact on the "
+               "affine fragment.",
     technique="Lean 4 proof (induction over passes/iterations, substitution refinement, union-find invariant) + pass-by-pass "
               "model/implementation correspondence + direct solution oracle",
 )
